@@ -212,6 +212,14 @@ def step (d : D) (o : Op) : D × String :=
     -- message plus at most 15 selected ones (GoatModel.Prepare, C08P.prepared_size)
     (d, if (o.get? "got").isNone || (decide (1 ≤ o.nat "got") && decide (o.nat "got" ≤ Prepare.maxTxLen)) then "=> ok"
         else "=> err ;; proposal-size")
+  -- the mempool walk of the PrepareProposal handler on a scripted mempool (GoatModel.Prepare.walkV)
+  | "a.walk" =>
+    let vs := (o.list "verdicts").map (fun x => if x == "1" then Prepare.Verdict.pass else if x == "0" then .evict
+                                               else if x == "n" then .notFound else .removeErr)
+    (d, match Prepare.walkV vs 0 [] [] with
+        | .ok (sel, ev, k) => s!"=> ok sel={lst (sel.map toString)} ev={lst (ev.map toString)} looked={k}"
+        | .err e => "=> err ;; " ++ e
+        | .panic e => "=> panic ;; " ++ e)
   | "a.export" =>
     -- does the locking + relayer state survive export → import (GoatModel.Genesis)?  Compared with the real
     -- application's verdict whenever that could be observed (`lrobs=1`)
